@@ -68,9 +68,12 @@ func run(pass *analysis.Pass) (any, error) {
 			// We assume the receiver expression is addressable
 			// since otherwise the code wouldn't compile.
 			if _, ok := types.Unalias(recvT).(*types.Named); ok && !types.IsInterface(recvT) {
-				recvT = types.NewPointer(recvT)
-				recv = &ast.UnaryExpr{Op: token.AND, X: recv}
-
+				// A receiver that is not addressable (a call result, a map element) can only have
+				// been used with a value-receiver method; its address cannot be taken.
+				if tv, ok := pass.TypesInfo.Types[recv]; ok && tv.Addressable() {
+					recvT = types.NewPointer(recvT)
+					recv = &ast.UnaryExpr{Op: token.AND, X: recv}
+				}
 			}
 			return recv, recvT
 		}
